@@ -209,6 +209,35 @@ def check_parse(raw, x):
             if e != st:
                 bad.append(('C02', 'parse_style', 'raw=%r i=%d reported=%r terminal=%r' % (raw, i, texts(ac), sorted(st))))
                 break
+    else:
+        # parameters that are not numbers (`4:3`, `?25`, `38:2::1:2:3`, `:`) are not understood and therefore ignored:
+        # the text reads like the same text without them (a sequence that holds nothing else disappears).  Claimed only
+        # where no colour function is written in the sequence concerned (what a cut colour group means is C18's business).
+        import re as _re
+        changed = [False]
+        def drop(m):
+            toks = m.group(1).split(';')
+            junk = [t for t in toks if t and not t.isdigit()]
+            if not junk:
+                return m.group(0)
+            if any(set(t) - set('0123456789:<=>?') for t in junk) or any(t in ('38', '48', '58') for t in toks):
+                raise ValueError('out of scope')
+            keep = [t for t in toks if not (t and not t.isdigit())]
+            changed[0] = True
+            return ('\x1b[' + ';'.join(keep) + 'm') if keep else ''
+        try:
+            raw2 = _re.sub('\x1b\\[([0-9:;<=>?]*)m', drop, raw)
+        except ValueError:
+            raw2 = None
+        if raw2 is not None and changed[0]:
+            shown2, _, wf2 = T.run(raw2, {})
+            if wf2 and ''.join(c for c, _ in shown2) == x._s:
+                for i, ((c, st), ac) in enumerate(zip(shown2, acts(x))):
+                    e = eff(texts(ac))
+                    if e != st:
+                        bad.append(('C02', 'parse_ignores_unknown', 'raw=%r i=%d reported=%r; without the parameters that are not numbers (%r) a terminal shows %r' % (
+                            raw, i, texts(ac), raw2, sorted(st))))
+                        break
     return bad
 
 def effs(x):
